@@ -86,7 +86,7 @@ def close(a, b, rel=1e-10, abs_=1e-300):
 
 def run(ctx, rep):
     rng = ctx.rng
-    rep.rule = ("(1) random residual vectors (M in 1..12, zeros/ties/large values) and Jacobian rows for the 4 metrics and 4 derivatives; "
+    rep.rule = ("(1) random residual vectors (M in 1..12, zeros/ties/large values, every magnitude 1e-200..1e150) and Jacobian rows for the 4 metrics and 4 derivatives, model and 50-digit definition; "
                 "(2) ExplicitRegression on random reduced equations x constants x data (M in {1,2,3,10}, D in {1,3}, y away from 0), "
                 "4 metrics x absolute/relative; distinct = distinct inputs; non-trivial = equation with an operator / vector with >= 2 distinct entries")
     rep.assumptions = ["float summation order of np.mean vs left fold: compared to 1e-10 relative"]
